@@ -6,6 +6,7 @@ import (
 	"go/token"
 	"os"
 	"regexp"
+	"sort"
 	"strconv"
 	"strings"
 )
@@ -262,8 +263,61 @@ func genTables(c *ctx) string {
 	}
 	fmt.Fprintf(&b, "def numberTerminators : List Nat := %s\n", terms)
 	fmt.Fprintf(&b, "/-- `writeMap`: in the JSON form a member name is written through `writeString` (escaped) -/\ndef jsonKeysEscaped : Bool := %s\n", jsonKeysEscaped(c))
+	fmt.Fprintf(&b, "/-- `writeValue`: the Go integer kinds that have an arm of their own (the others fall to the default arm and are written as quoted strings, D97) -/\ndef writerIntKinds : List String := %s\n", writerIntKinds(c))
 	b.WriteString("end Ggql.Gen\n")
 	return b.String()
+}
+
+// writerIntKinds lists the integer kinds among the cases of writeValue's type switch whose arm writes the value
+// through strconv.FormatInt / FormatUint.
+func writerIntKinds(c *ctx) string {
+	fd := c.funcs["writeValue"]
+	if fd == nil {
+		return unknown("writeValue", "value.go")
+	}
+	intKinds := map[string]bool{"int": true, "int8": true, "int16": true, "int32": true, "int64": true, "uint": true, "uint8": true, "uint16": true, "uint32": true, "uint64": true, "byte": true, "uintptr": true}
+	var kinds []string
+	bad := false
+	nsw := 0
+	ast.Inspect(fd.Body, func(n ast.Node) bool {
+		ts, ok := n.(*ast.TypeSwitchStmt)
+		if !ok {
+			return true
+		}
+		nsw++
+		for _, st := range ts.Body.List {
+			cc := st.(*ast.CaseClause)
+			for _, e := range cc.List {
+				id, ok := e.(*ast.Ident)
+				if !ok || !intKinds[id.Name] {
+					continue
+				}
+				body := ""
+				for _, bs := range cc.Body {
+					body += c.src(bs)
+				}
+				body = regexp.MustCompile(`\s+`).ReplaceAllString(body, " ")
+				signed := "_, err = w.Write([]byte(strconv.FormatInt(int64(tv), 10)))"
+				signed64 := "_, err = w.Write([]byte(strconv.FormatInt(tv, 10)))"
+				unsigned := "_, err = w.Write([]byte(strconv.FormatUint(uint64(tv), 10)))"
+				unsigned64 := "_, err = w.Write([]byte(strconv.FormatUint(tv, 10)))"
+				if len(cc.List) != 1 || !(body == signed || body == signed64 || body == unsigned || body == unsigned64) {
+					bad = true
+				}
+				name := id.Name
+				if name == "byte" {
+					name = "uint8"
+				}
+				kinds = append(kinds, fmt.Sprintf("%q", name))
+			}
+		}
+		return false
+	})
+	if bad || nsw != 1 {
+		return unknown("writeValue integer arms", c.pos(fd))
+	}
+	sort.Strings(kinds)
+	return "[" + strings.Join(kinds, ", ") + "]"
 }
 
 // jsonKeysEscaped reads how writeMap writes a member name.
